@@ -341,8 +341,31 @@ func AlphaRename(p *core.Program) *core.Program {
 	for _, t := range q.Bundle {
 		r := &renamer{}
 		t.Body = r.block(t.Body, nil)
+		// a let that no reference resolves to (the original compiled only because
+		// the checker counts uses by name) would now be rejected as unused
+		for changed := true; changed; {
+			t.Body, changed = dropUnusedLets(t.Body, t.Body)
+		}
 	}
 	return q
+}
+
+func dropUnusedLets(cmds []core.Cmd, whole []core.Cmd) ([]core.Cmd, bool) {
+	changed := false
+	out := []core.Cmd{}
+	for _, c := range cmds {
+		if (c["k"] == "letv" || c["k"] == "letc") && !mentions(whole, c["name"].(string)) {
+			changed = true
+			continue
+		}
+		mapBodies(c, func(kind string, b []core.Cmd) []core.Cmd {
+			nb, ch := dropUnusedLets(b, whole)
+			changed = changed || ch
+			return nb
+		})
+		out = append(out, c)
+	}
+	return out, changed
 }
 
 // ---- let that reads the name it binds ---------------------------------------------
@@ -381,6 +404,33 @@ func SplitSelfRef(p *core.Program) (*core.Program, bool) {
 	n := 0
 	for _, t := range q.Bundle {
 		t.Body = selfRefBlock(t.Body, &n)
+	}
+	return q, n > 0
+}
+
+// ---- foreach whose list reads the name of its own variable ----------------------------
+
+func loopSelfRefBlock(cmds []core.Cmd, n *int) []core.Cmd {
+	out := []core.Cmd{}
+	for _, c := range cmds {
+		mapBodies(c, func(kind string, b []core.Cmd) []core.Cmd { return loopSelfRefBlock(b, n) })
+		if c["k"] == "foreach" && mentions(c["e"], c["var"].(string)) {
+			*n++
+			tmp := fmt.Sprintf("%s_l%d", c["var"].(string), *n)
+			out = append(out, core.CLetV(tmp, c["e"].(core.E)))
+			c["e"] = core.EVar(tmp)
+		}
+		out = append(out, c)
+	}
+	return out
+}
+
+// SplitLoopSelfRef rewrites {foreach $x in f($x)} to {let $x_l: f($x) /}{foreach $x in $x_l}.
+func SplitLoopSelfRef(p *core.Program) (*core.Program, bool) {
+	q := CloneProgram(p)
+	n := 0
+	for _, t := range q.Bundle {
+		t.Body = loopSelfRefBlock(t.Body, &n)
 	}
 	return q, n > 0
 }
